@@ -13,8 +13,8 @@ import traceback
 from typing import Any, Callable, Dict, Iterable, Iterator, List, Optional, Tuple
 
 ROOT = os.path.dirname(os.path.dirname(os.path.abspath(__file__)))
-EVIDENCE_DIR = os.path.join(ROOT, "evidence")
-REPLAY_DIR = os.path.join(ROOT, "replays")
+EVIDENCE_DIR = os.environ.get("VERIF_EVIDENCE_DIR") or os.path.join(ROOT, "evidence")  # override only for mutant runs
+REPLAY_DIR = os.environ.get("VERIF_REPLAY_DIR") or os.path.join(ROOT, "replays")
 WORK_DIR = os.path.join(ROOT, ".work")
 NPROC = int(os.environ.get("VERIF_PROCS", "16"))
 
